@@ -210,6 +210,42 @@ pub fn build_into<W: Write>(dest: W, cfg: &Cfg, ops: &[Op], mut on_flush: impl F
     (results, finalized)
 }
 
+/// Like `build`, but every append whose source is exactly as long as announced goes through
+/// `helpers::StreamWriter` fed by `io::copy` from `mk_src(bytes)` (a source that may return short reads):
+/// the file then receives the same bytes in however many `append_file_content` calls the copy makes.
+pub fn build_streamed<R: std::io::Read>(cfg: &Cfg, ops: &[Op], mut mk_src: impl FnMut(Vec<u8>) -> R) -> Built {
+    let sink = Sink::default();
+    let data = sink.data.clone();
+    let mut results = Vec::with_capacity(ops.len());
+    let mut finalized = false;
+    let mut w = match ArchiveWriter::from_config(sink, cfg.writer_config()) {
+        Ok(w) => w,
+        Err(e) => return Built { bytes: vec![], results: vec![format!("open:{}", err_class(&e))], flush_len: vec![], finalized: false },
+    };
+    for op in ops {
+        let r = match op {
+            Op::Start(n) => match w.start_file(n) { Ok(id) => format!("id:{id}"), Err(e) => err_class(&e) },
+            Op::Append { id, size, src } if *size as usize == src.len() => {
+                let mut sw = mla::helpers::StreamWriter::new(&mut w, *id);
+                match std::io::copy(&mut mk_src(src.clone()), &mut sw) {
+                    Ok(n) if n == *size => "ok".to_string(),
+                    Ok(n) => format!("copied:{n}"),
+                    Err(e) => io_err_class(&e),
+                }
+            }
+            Op::Append { id, size, src } => res_string(&w.append_file_content(*id, *size, &src[..])),
+            Op::End(id) => res_string(&w.end_file(*id)),
+            Op::Add { name, size, src } => res_string(&w.add_file(name, *size, &src[..])),
+            Op::Flush => match w.flush() { Ok(()) => "ok".to_string(), Err(e) => io_err_class(&e) },
+            Op::Finalize => { let r = w.finalize(); if r.is_ok() { finalized = true; } res_string(&r) }
+        };
+        results.push(r);
+    }
+    drop(w);
+    let bytes = data.borrow().clone();
+    Built { bytes, results, flush_len: vec![], finalized }
+}
+
 pub fn build(cfg: &Cfg, ops: &[Op]) -> Built {
     let sink = Sink::default();
     let data = sink.data.clone();
